@@ -320,11 +320,16 @@ static std::string rand_file(Rng &r) {
     static const char *more[] = {"/lib/x86_64-linux-gnu/libfoo.so.1", "#", "# plain comment", "  ", "\t", LIBPATH "  ", LIBPATH "\t# c", LIBPATH ".1", "/x" LIBPATH, LIBPATH "x", " " LIBPATH, "/lib/foreign.so # libsnoopy.so is great",
         "/lib/b.so " LIBPATH, "/lib/a.so:/lib/b.so", "/usr/lib/libsnoopy.so # other", "libfakeroot.so", LIBPATH "#nospace", "/lib/d.so\t/lib/e.so", "#" LIBPATH};
     std::string s; int n = (int)r.range(0, 8);
+    // a file larger than one or two stdio buffers: many entries of other software around the generated lines
+    int big_at = r.chance(1, 12) ? (int)r.below((uint64_t)n + 1) : -1;
+    auto big = [&]() { int k = (int)r.range(200, 700); for (int j = 0; j < k; j++) s += (j % 7 == 3 ? "# vendor entry " : "/opt/vendor/lib/libhook-") + std::to_string(j) + (j % 7 == 3 ? "" : ".so") + "\n"; };
     for (int i = 0; i < n; i++) {
+        if (i == big_at) big();
         std::string l = r.chance(1, 2) ? ALPHA[r.below(9)] : more[r.below(19)];
         if (r.chance(1, 12)) l += "\r";
         s += l; if (i + 1 < n || r.chance(4, 5)) s += "\n";
     }
+    if (big_at == n) { if (!s.empty() && s.back() != '\n') s += "\n"; big(); }
     return s;
 }
 
@@ -344,10 +349,15 @@ static CtlPlan gen_plan(const std::string &prop, uint64_t seed, const std::strin
     uint64_t fam = seed / 64; int slot = (int)(seed % 64);
     Rng r(fam * 1000003 + 120);
     static const char *inits[] = {"", "/lib/foreign.so\n", "/lib/foreign.so", "# comment\n/lib/a.so /lib/b.so\n", LIBPATH "\n", "/lib/a.so\n" LIBPATH "\n/lib/z.so\n", LIBPATH " # c\n/lib/q.so\n", "/lib/a.so\n" LIBPATH};
-    int which = (int)(fam % 18);
-    if (which < 8) { p.initial = inits[which]; } else if (which == 8) { p.exists = false; } else p.initial = rand_file(r);
+    int which = (int)(fam % 20);
+    if (which < 8) { p.initial = inits[which]; } else if (which == 8) { p.exists = false; }
+    else if (which >= 18) {   // content of more than one stdio buffer (4096 bytes here), with (19) and without (18) the library's entry
+        int k = (int)r.range(230, 600), own_at = which == 19 ? (int)r.below((uint64_t)k) : -1;
+        for (int j = 0; j < k; j++) { if (j == own_at) p.initial += std::string(LIBPATH) + "\n"; p.initial += "/opt/vendor/lib/libhook-" + std::to_string(j) + ".so\n"; }
+    }
+    else p.initial = rand_file(r);
     bool has_own = false; for (auto &l : split_lines(p.initial, nullptr)) if (classify(l).own) has_own = true;
-    std::string op = (fam / 18) % 2 ? "disable" : "enable";
+    std::string op = (fam / 20) % 2 ? "disable" : "enable";
     if (which >= 9) op = has_own ? "disable" : "enable";
     p.ops = {op};
     // census (fault-free, in-process)
